@@ -467,6 +467,16 @@ pub fn run(o: &Opts) -> i32 {
             gen.push(DefEntry { name: "m".into(), def: Rc::new(Def::BaseUnit { long_name: Some("meter".into()) }), doc: Some("the metre".into()), category: Some("lengths".into()) });
             gen.push(DefEntry { name: "am".into(), def: Rc::new(Def::BaseUnit { long_name: None }), doc: None, category: Some("lengths".into()) });
             gen.push(mkp("d", "1|10", false)); gen.push(mkp("da", "10", false)); gen.push(mkp("deci", "d", true)); gen.push(mkp("a", "1|1000", false)); gen.push(mkp("ab", "7", false));
+            // chemical formulas and element symbols used by names that sort before the elements they need
+            {
+                let mkprop = |name: &str, inn: &str, i: &str, outn: &str, o: &str| { let mut a = rink_core::loader::gnu_units::TokenIterator::new(i).peekable(); let mut b = rink_core::loader::gnu_units::TokenIterator::new(o).peekable();
+                    Property { name: name.into(), input_name: inn.into(), output_name: outn.into(), doc: None, input: ExprString(rink_core::loader::gnu_units::parse_expr(&mut a)), output: ExprString(rink_core::loader::gnu_units::parse_expr(&mut b)) } };
+                let bu = |n: &str| DefEntry { name: n.into(), def: Rc::new(Def::BaseUnit { long_name: None }), doc: None, category: None };
+                gen.push(bu("kg")); gen.push(bu("mol"));
+                gen.push(DefEntry { name: "zirkon".into(), doc: None, category: None, def: Rc::new(Def::Substance { symbol: Some("Zq".into()), properties: vec![mkprop("molar_mass", "amount", "1 mol", "mass", "5 kg")] }) });
+                gen.push(DefEntry { name: "yttrum".into(), doc: None, category: None, def: Rc::new(Def::Substance { symbol: Some("Yq".into()), properties: vec![mkprop("molar_mass", "amount", "1 mol", "mass", "7 kg")] }) });
+                gen.push(unit("aaformula", "Zq2Yq")); gen.push(unit("zzformula", "Zq3")); gen.push(unit("aaelement", "3 Yq"));
+            }
             // a name that is both prefix + unit and the plural of another unit (`ks` = k + s, not the plural of the unit k)
             gen.push(DefEntry { name: "s".into(), def: Rc::new(Def::BaseUnit { long_name: None }), doc: None, category: None });
             gen.push(mkp("k", "1000", false)); gen.push(unit("k", "5 m")); gen.push(unit("aab", "3 ks")); gen.push(unit("zab", "3 ks"));
